@@ -66,7 +66,7 @@ func (l *c03sLedger) conn(name string, dir network.Direction, fd bool) *c03sHold
 	if fd {
 		h.use.fd = 1
 	}
-	l.holders = append(l.holders, h)
+	vs.Locked(func() { l.holders = append(l.holders, h) })
 	return h
 }
 
@@ -77,7 +77,7 @@ func (l *c03sLedger) stream(name string, p string, dir network.Direction) *c03sH
 	} else {
 		h.use.streamsOut = 1
 	}
-	l.holders = append(l.holders, h)
+	vs.Locked(func() { l.holders = append(l.holders, h) })
 	return h
 }
 
@@ -355,11 +355,13 @@ func (e *c03sEnv) closeLater(d c03sDoner, h *c03sHolder) {
 	if d == nil || h == nil {
 		return
 	}
-	e.closers = append(e.closers, func() {
-		if h.open {
-			d.Done()
-			h.open = false
-		}
+	vs.Locked(func() {
+		e.closers = append(e.closers, func() {
+			if h.open {
+				d.Done()
+				h.open = false
+			}
+		})
 	})
 }
 
